@@ -1,14 +1,18 @@
 import Log4rsModel.Reconfig.LemmasSwap
 import Log4rsModel.Reconfig.LemmasReloader
 import Log4rsModel.Reconfig.LemmasFacade
+import Log4rsModel.Reconfig.LemmasSpecTrace
 /-
 C15 — Runtime reconfiguration is atomic; the file reloader keeps the last good config.
-Only property theorems and non-vacuity examples live here; helpers are in
-Reconfig/LemmasSwap.lean and Reconfig/LemmasReloader.lean.
+Only property theorems and non-vacuity examples live here; helpers are in Reconfig/Lemmas*.lean.
+Every `C15_*` theorem is about the code as it is now (model flags `codeFixed`,
+`setConfigSerialised`, `initStatsBeforeRead` all true) or about the current executable Spec;
+`Hist_C15_*` theorems are about the variants before the three fixes and are not counted.
 
 Part (a) is about the machine of Reconfig/Swap.lean: any number of `log` calls stepping in any
-order against one store holding ONE snapshot (routing function + appender table), with `set_config`
-swaps anywhere in between, including inside a delivery. `reload = false` is the code.
+order against one store holding ONE snapshot (tree + appender table), with `set_config` swaps
+anywhere in between, including inside a delivery (`LoadMode.once` is the code), and about
+Reconfig/Facade.lean: `set_config` as two writes under a lock, records gated by the facade.
 Part (b) is about `runOnce` of Reconfig/Reloader.lean, the mirror of `ConfigReloader::run_once`.
 -/
 set_option linter.unusedSimpArgs false
@@ -19,6 +23,32 @@ namespace Log4rs.Reconfig
 /-- `SharedLogger::new` turns appender names into indices of the table it builds in the same
 value: every snapshot is well-formed by construction, for every configuration -/
 theorem C15_snapshot_wellformed (c : MiniCfg) : (mkSnapshot c).WF := mkSnapshot_WF c
+
+/-- `SharedLogger::new` with its panic (`appender_map[name]` on an unknown name) made explicit:
+whenever it returns, the snapshot is well-formed; on every configuration `Config::build` can
+produce (`c.valid`) it does return, and it returns `mkSnapshot c`; and it panics exactly on a
+configuration that names an appender missing from the table — nothing is silently dropped -/
+theorem C15_snapshot_construction (c : MiniCfg) :
+    (∀ s, mkSnapshotO c = .ok s → s.WF) ∧
+    (c.valid = true → mkSnapshotO c = .ok (mkSnapshot c)) ∧
+    (mkSnapshotO c ≠ .ok (mkSnapshot c) → ∃ why, mkSnapshotO c = .panic why) := by
+  refine ⟨?_, ?_, ?_⟩
+  · intro s hs
+    unfold mkSnapshotO at hs
+    split at hs
+    · cases hs; exact mkSnapshot_WF c
+    · cases hs
+  · intro hv
+    simp only [MiniCfg.valid, Bool.and_eq_true] at hv
+    unfold mkSnapshotO
+    rw [if_pos]
+    rw [Bool.and_eq_true]
+    exact ⟨hv.1.1.2, hv.1.2⟩
+  · intro h
+    unfold mkSnapshotO at h ⊢
+    split
+    · rename_i hc; rw [if_pos hc] at h; exact absurd rfl h
+    · exact ⟨_, rfl⟩
 
 /-- … and resolving those indices in the snapshot's own table gives back exactly the configured
 appenders (tagged with the snapshot), or nothing when the level gate is closed -/
@@ -36,7 +66,7 @@ number of `set_config` swaps at any position, including between "enter `append`"
 * once it has finished, its deliveries are exactly what that one snapshot prescribes —
   entirely one configuration, never a mixture. -/
 theorem C15_snapshot_atomic (sys : Sys) (hsys : sys.Inv) (evs : List Event) (hev : ∀ e ∈ evs, e.WF) :
-    ∀ th ∈ (sys.run false evs).threads,
+    ∀ th ∈ (sys.run .once evs).threads,
       th.isPanicked = false ∧
       (∀ s, th.atLoad = some s → ∃ rest, th.out ++ rest = prescribed s th.target th.level) ∧
       (th.isDone = true → ∃ s, th.atLoad = some s ∧ th.out = prescribed s th.target th.level) := by
@@ -48,10 +78,10 @@ theorem C15_snapshot_atomic (sys : Sys) (hsys : sys.Inv) (evs : List Event) (hev
 
 /-- the ghost field `atLoad` means what it says: the step a call takes from `init` is the `load`,
 and it records the value the store holds at that very moment -/
-theorem C15_load_reads_store (reload : Bool) (store : Snapshot) (tid : Nat) (th : Thread)
-    (h : th.atLoad = none) (s : Snapshot) (hs : (th.step reload store tid).1.atLoad = some s) :
+theorem C15_load_reads_store (mode : LoadMode) (store : Snapshot) (tid : Nat) (th : Thread)
+    (h : th.atLoad = none) (s : Snapshot) (hs : (th.step mode store tid).1.atLoad = some s) :
     s = store := by
-  rcases Thread.step_atLoad reload store tid th s hs with h1 | h1
+  rcases Thread.step_atLoad mode store tid th s hs with h1 | h1
   · rw [h] at h1; cases h1
   · exact h1
 
@@ -59,8 +89,8 @@ theorem C15_load_reads_store (reload : Bool) (store : Snapshot) (tid : Nat) (th 
 snapshot stored later -/
 theorem C15_routed_under_loaded (sys : Sys) (hsys : sys.Inv)
     (t : Target) (l : Level) (evs : List Event) (hev : ∀ e ∈ evs, e.WF) :
-    let sys1 := sys.apply false (.spawn t l)
-    ∀ th, (sys1.run false evs).threads[sys.threads.length]? = some th → th.isDone = true →
+    let sys1 := sys.apply .once (.spawn t l)
+    ∀ th, (sys1.run .once evs).threads[sys.threads.length]? = some th → th.isDone = true →
       ∃ s, (s = sys.store ∨ Event.swap s ∈ evs) ∧ th.out = prescribed s t l := by
   intro sys1 th hth hdone
   let P : Snapshot → Prop := fun s => s = sys.store ∨ Event.swap s ∈ evs
@@ -68,13 +98,13 @@ theorem C15_routed_under_loaded (sys : Sys) (hsys : sys.Inv)
     refine ⟨Or.inl rfl, { target := t, level := l }, ?_, ?_⟩
     · simp [sys1, Sys.apply]
     · intro s hs; simp at hs
-  have h1 := LoadsIn.run (P := P) false evs h0 (fun s hs => Or.inr hs)
+  have h1 := LoadsIn.run (P := P) .once evs h0 (fun s hs => Or.inr hs)
   obtain ⟨_, th', hth', hat⟩ := h1
   rw [hth] at hth'; cases hth'
   have hinv1 : sys1.Inv := Sys.apply_inv sys hsys (.spawn t l) trivial
-  have hmem : th ∈ (sys1.run false evs).threads := List.mem_of_getElem? hth
+  have hmem : th ∈ (sys1.run .once evs).threads := List.mem_of_getElem? hth
   have hinv := (Sys.run_inv sys1 hinv1 evs hev).2 th hmem
-  have htl := Sys.run_target false evs sys1 sys.threads.length { target := t, level := l } th
+  have htl := Sys.run_target .once evs sys1 sys.threads.length { target := t, level := l } th
     (by simp [sys1, Sys.apply]) hth
   rcases th with ⟨t', l', pc, al, out⟩
   cases pc with
@@ -89,19 +119,19 @@ theorem C15_routed_under_loaded (sys : Sys) (hsys : sys.Inv)
 
 theorem C15_after_swap_new (sys : Sys) (hsys : sys.Inv) (new : Snapshot) (hnew : new.WF)
     (t : Target) (l : Level) (evs : List Event) (hev : ∀ e ∈ evs, e.WF) :
-    let sys1 := (sys.apply false (.swap new)).apply false (.spawn t l)
-    ∀ th, (sys1.run false evs).threads[sys.threads.length]? = some th → th.isDone = true →
+    let sys1 := (sys.apply .once (.swap new)).apply .once (.spawn t l)
+    ∀ th, (sys1.run .once evs).threads[sys.threads.length]? = some th → th.isDone = true →
       ∃ s, (s = new ∨ Event.swap s ∈ evs) ∧ th.out = prescribed s t l := by
   intro sys1 th hth hdone
-  exact C15_routed_under_loaded (sys.apply false (.swap new)) (Sys.apply_inv sys hsys (.swap new) hnew)
+  exact C15_routed_under_loaded (sys.apply .once (.swap new)) (Sys.apply_inv sys hsys (.swap new) hnew)
     t l evs hev th hth hdone
 
 /-- … and when nobody swaps again, it is the new configuration and nothing else -/
 theorem C15_after_swap_only_new (sys : Sys) (hsys : sys.Inv) (new : Snapshot) (hnew : new.WF)
     (t : Target) (l : Level) (evs : List Event) (hev : ∀ e ∈ evs, e.WF)
     (hno : ∀ s, Event.swap s ∉ evs) :
-    let sys1 := (sys.apply false (.swap new)).apply false (.spawn t l)
-    ∀ th, (sys1.run false evs).threads[sys.threads.length]? = some th → th.isDone = true →
+    let sys1 := (sys.apply .once (.swap new)).apply .once (.spawn t l)
+    ∀ th, (sys1.run .once evs).threads[sys.threads.length]? = some th → th.isDone = true →
       th.out = prescribed new t l := by
   intro sys1 th hth hdone
   obtain ⟨s, hs, hout⟩ := C15_after_swap_new sys hsys new hnew t l evs hev th hth hdone
@@ -114,8 +144,8 @@ somewhere — anywhere — in the interleaving of a record that starts under `ol
 theorem C15_old_or_new (sys : Sys) (hsys : sys.Inv) (new : Snapshot)
     (t : Target) (l : Level) (evs : List Event) (hev : ∀ e ∈ evs, e.WF)
     (hsw : ∀ s, Event.swap s ∈ evs → s = new) :
-    let sys1 := sys.apply false (.spawn t l)
-    ∀ th, (sys1.run false evs).threads[sys.threads.length]? = some th → th.isDone = true →
+    let sys1 := sys.apply .once (.spawn t l)
+    ∀ th, (sys1.run .once evs).threads[sys.threads.length]? = some th → th.isDone = true →
       th.out = prescribed sys.store t l ∨ th.out = prescribed new t l := by
   intro sys1 th hth hdone
   obtain ⟨s, hs, hout⟩ := C15_routed_under_loaded sys hsys t l evs hev th hth hdone
@@ -128,7 +158,7 @@ theorem C15_old_or_new (sys : Sys) (hsys : sys.Inv) (new : Snapshot)
 `appenders[idx]`, and every delivery made so far is (tag of the loaded snapshot, the appender that
 snapshot's own table holds at an index that snapshot's own routing function produced) -/
 theorem C15_no_mixed_index (sys : Sys) (hsys : sys.Inv) (evs : List Event) (hev : ∀ e ∈ evs, e.WF) :
-    ∀ th ∈ (sys.run false evs).threads,
+    ∀ th ∈ (sys.run .once evs).threads,
       th.isPanicked = false ∧
       ∀ d ∈ th.out, ∃ s, th.atLoad = some s ∧ d.1 = s.tag ∧
         ∃ i, i ∈ s.route th.target th.level ∧ i < s.table.length ∧ s.table[i]? = some d.2 := by
@@ -145,20 +175,20 @@ theorem C15_no_mixed_index (sys : Sys) (hsys : sys.Inv) (evs : List Event) (hev 
     obtain ⟨hwf, rest, hpre⟩ := hinv.pre hal
     have hmem : d ∈ prescribed s th.target th.level := by rw [← hpre]; simp [hd]
     obtain ⟨i, hi, hget, htag⟩ := mem_resolve hmem
-    exact ⟨s, rfl, htag, i, hi, hwf _ _ i hi, hget⟩
+    exact ⟨s, rfl, htag, i, hi, hwf.route _ _ i hi, hget⟩
 
 /-- what an observer sees: in the trace of any run that starts with no call in flight, the
 deliveries recorded for a completed call are exactly what the one snapshot it loaded prescribes
 (this is the list the harness compares, record by record, with the real appenders' captures) -/
 theorem C15_observed_deliveries_atomic (s0 : Snapshot) (h0 : s0.WF) (evs : List Event)
     (hev : ∀ e ∈ evs, e.WF) :
-    let sys := Sys.run false { store := s0 } evs
+    let sys := Sys.run .once { store := s0 } evs
     ∀ tid th, sys.threads[tid]? = some th → th.isDone = true →
       ∃ s, th.atLoad = some s ∧ sys.trace.filterMap (delivOf tid) = prescribed s th.target th.level := by
   intro sys tid th hth hdone
   have hinv : (Sys.mk s0 [] []).Inv := ⟨h0, by simp⟩
   have htr : (Sys.mk s0 [] []).TraceInv := ⟨by simp, by simp⟩
-  have h1 := (Sys.run_traceInv false evs _ htr).1 tid th hth
+  have h1 := (Sys.run_traceInv .once evs _ htr).1 tid th hth
   obtain ⟨s, hs, hout⟩ := (C15_snapshot_atomic _ hinv evs hev th (List.mem_of_getElem? hth)).2.2 hdone
   exact ⟨s, hs, h1.trans hout⟩
 
@@ -166,7 +196,7 @@ theorem C15_observed_deliveries_atomic (s0 : Snapshot) (h0 : s0.WF) (evs : List 
 fan-out position, several swaps in one record, nested records) are interleavings of this machine:
 every call of every scenario is routed entirely under the snapshot it loaded -/
 theorem C15_scenario_atomic (sc : Scenario) (sys : Sys) (hinit : sc.init = some sys) :
-    ∀ th ∈ (sys.run false (sc.events sys)).threads,
+    ∀ th ∈ (sys.run .once (sc.events sys)).threads,
       th.isPanicked = false ∧
       (th.isDone = true → ∃ s, th.atLoad = some s ∧ th.out = prescribed s th.target th.level) := by
   have hsys : sys.Inv := by
@@ -181,23 +211,100 @@ theorem C15_scenario_atomic (sc : Scenario) (sys : Sys) (hinit : sc.init = some 
   have h := C15_snapshot_atomic sys hsys (sc.events sys) hev th hth
   exact ⟨h.1, h.2.2⟩
 
+/-- Impl = Spec for part (a): on EVERY event list over the configurations of a case — any number of
+concurrent or nested calls, swaps anywhere — whose calls have all completed, the observable trace
+of the machine satisfies the executable specification `specTrace` (windowed form: each record is
+routed entirely under one configuration that was current at some moment between its begin and its
+end). This is the specification the driver evaluates on the real code's trace. -/
+theorem C15_run_meets_spec (c0 : MiniCfg) (more : List MiniCfg) (evs : List Event)
+    (hev : ∀ e ∈ evs, ∀ s, e = .swap s → ∃ c ∈ c0 :: more, s = mkSnapshot c)
+    (hdone : ∀ th ∈ (Sys.run .once { store := mkSnapshot c0 } evs).threads, th.isDone = true) :
+    specTrace (c0 :: more) false (Sys.run .once { store := mkSnapshot c0 } evs).trace = none :=
+  specTrace_run c0 more evs hev hdone
+
+/-- the same for the scripted scenarios of the harness, whenever the scheduler ran every call to
+completion (the driver checks that on every case, and additionally evaluates the strict form —
+"the configuration in force at begin" — on the model's own trace; see `handleSwap`) -/
+theorem C15_scenario_meets_spec (sc : Scenario) (c0 : MiniCfg) (more : List MiniCfg)
+    (hcfgs : sc.cfgs = c0 :: more)
+    (hdone : ∀ th ∈ (Sys.run .once { store := mkSnapshot c0 } (sc.events { store := mkSnapshot c0 })).threads,
+      th.isDone = true) :
+    specTrace sc.cfgs false (Sys.run .once { store := mkSnapshot c0 } (sc.events { store := mkSnapshot c0 })).trace = none := by
+  rw [hcfgs]
+  apply specTrace_run c0 more _ _ hdone
+  -- every swap the scheduler emits stores the snapshot of one of the scenario's configurations
+  intro e he s hs
+  have key : ∀ (fuel : Nat) (sys : Sys) (stack : List Frame) (acc : List Event),
+      (∀ e ∈ acc, ∀ s, e = Event.swap s → ∃ c ∈ sc.cfgs, s = mkSnapshot c) →
+      ∀ e ∈ schedule sc fuel sys stack acc, ∀ s, e = Event.swap s → ∃ c ∈ sc.cfgs, s = mkSnapshot c := by
+    intro fuel sys stack acc hacc
+    fun_induction schedule sc fuel sys stack acc with
+    | case1 => simpa using hacc
+    | case2 => simpa using hacc
+    | case3 _ _ _ _ _ ih => exact ih hacc
+    | case4 _ _ _ _ _ _ _ _ ih => exact ih hacc
+    | case5 _ _ _ _ _ _ k c hk _ ih =>
+      apply ih
+      intro e he s hs
+      simp only [List.mem_cons] at he
+      rcases he with he | he
+      · rw [he] at hs
+        have hs' : Event.swap (mkSnapshot c) = Event.swap s := hs
+        injection hs' with h
+        exact ⟨c, List.mem_of_getElem? hk, h.symm⟩
+      · exact hacc e he s hs
+    | case6 _ _ _ _ _ _ _ _ _ ih =>
+      apply ih
+      intro e he s hs
+      simp only [List.mem_cons] at he
+      rcases he with he | he
+      · rw [he] at hs
+        have hs' : Event.spawn _ _ = Event.swap s := hs
+        cases hs'
+      · exact hacc e he s hs
+    | case7 _ _ _ _ _ _ _ ih => exact ih hacc
+    | case8 _ _ _ _ _ _ _ _ _ ih => exact ih hacc
+    | case9 _ _ _ _ _ _ _ _ _ _ _ _ ih =>
+      apply ih
+      intro e he s hs
+      simp only [List.mem_cons] at he
+      rcases he with he | he
+      · rw [he] at hs
+        have hs' : Event.step _ = Event.swap s := hs
+        cases hs'
+      · exact hacc e he s hs
+  have := key _ _ _ [] (by simp) e he s hs
+  rw [hcfgs] at this
+  exact this
+
 /-! ### non-vacuity of (a): the theorems tell the code from the variant that re-reads the pointer -/
 
 /-- the wrong variant (pointer re-read at every step) delivers a mixture … -/
-theorem C15_reload_variant_mixes :
-    outs (Sys.run true { store := wOld } (wEvents wBig)) = [([(0, 10), (1, 22)], true, false)] ∧
+theorem Variant_C15_reload_mixes :
+    outs (Sys.run .everyStep { store := wOld } (wEvents wBig)) = [([(0, 10), (1, 22)], true, false)] ∧
     prescribed wOld 0 3 = [(0, 10), (0, 12)] ∧ prescribed wBig 0 3 = [(1, 21)] := by
   decide
 
 /-- … or indexes the smaller new table with an index of the old tree and panics -/
-theorem C15_reload_variant_panics :
-    outs (Sys.run true { store := wOld } (wEvents wSmall)) = [([(0, 10)], false, true)] := by
+theorem Variant_C15_reload_panics :
+    outs (Sys.run .everyStep { store := wOld } (wEvents wSmall)) = [([(0, 10)], false, true)] := by
+  decide
+
+/-- the realistic wrong variant — "is it enabled" decided on a first load, find + fan-out done on a
+second one — lets a record through on the old configuration's level and delivers it to the new
+configuration's appender, which the new configuration would not have done: a mixture. (This is the
+variant a seeded change of `Logger::log` introduced; the deterministic re-entrant enumeration cannot
+reach the window between two loads, the theorem can.) -/
+theorem Variant_C15_double_load_mixes :
+    outs (Sys.run .gateThenReload { store := wOld } (wEventsEarly wQuiet)) = [([(1, 21)], true, false)] ∧
+    prescribed wOld 0 3 = [(0, 10), (0, 12)] ∧ prescribed wQuiet 0 3 = [] ∧
+    outs (Sys.run .once { store := wOld } (wEventsEarly wQuiet)) = [([(0, 10), (0, 12)], true, false)] := by
   decide
 
 /-- the code (pointer loaded once) on the very same interleavings: entirely the old configuration -/
 theorem C15_code_on_same_interleavings :
-    outs (Sys.run false { store := wOld } (wEvents wBig)) = [([(0, 10), (0, 12)], true, false)] ∧
-    outs (Sys.run false { store := wOld } (wEvents wSmall)) = [([(0, 10), (0, 12)], true, false)] := by
+    outs (Sys.run .once { store := wOld } (wEvents wBig)) = [([(0, 10), (0, 12)], true, false)] ∧
+    outs (Sys.run .once { store := wOld } (wEvents wSmall)) = [([(0, 10), (0, 12)], true, false)] := by
   decide
 
 
@@ -364,7 +471,7 @@ theorem C15_rate_removal_stops_polling (fixed : Bool) (st : RState Text) (m : Mt
 
 /-- The active configuration after any history of `run_once` calls, stated as three independent
 layers: (1) `reads` — which polls read the file at all (mtime rule; a failed read still consumes
-the mtime when `fixed = false`); (2) `changes` — which of the read texts differ from the source
+the mtime in the historical variant `fixed = false`); (2) `changes` — which of the read texts differ from the source
 remembered at that moment (a text that failed to parse *is* remembered: re-polling it is "no
 change", restoring the previous good text afterwards is a change and is applied again);
 (3) `lastGood` — the last changed text that parses decides configuration, rate and liveness. -/
@@ -382,75 +489,49 @@ theorem C15_active_is_last_good (fixed : Bool) (st : RState Text) (h : List (Fil
   rw [hr]
   exact ⟨h2.1, h2.2, rfl⟩
 
-/-- the same for the loop of `run` (which stops at the first applied configuration without a
-refresh rate), for histories in which no applied text removes the rate -/
-theorem C15_active_is_last_good_run (fixed : Bool) (st : RState Text) (h : List (FileView Text))
-    (ha : st.alive = true)
-    (hn : NoRateRemoval parse (changes st.source (reads fixed st.modified h))) :
+/-- the same for the loop of `run`, for EVERY history — refresh-rate removal included: the loop
+stops at the first applied text that has no refresh rate (`lastGoodRun` ignores whatever comes
+after it), so an edit made after the removal is never applied -/
+theorem C15_active_is_last_good_run (fixed : Bool) (st : RState Text) (h : List (FileView Text)) :
     let r := runAll parse fixed st h
     (r.active, r.rate, r.alive) =
-      lastGood parse (st.active, st.rate, st.alive) (changes st.source (reads fixed st.modified h)) ∧
-    r.alive = true := by
-  intro r
-  have hr : r = stepAll parse fixed st h := runAll_eq_stepAll parse fixed h st ha hn
-  have h1 := (C15_active_is_last_good parse fixed st h).1
-  rw [hr]
-  refine ⟨h1, ?_⟩
-  -- liveness: every applied text has a rate
-  have : ∀ (ts : List Text) (init : ConfigTag × Rate × Bool), init.2.2 = true → NoRateRemoval parse ts →
-      (lastGood parse init ts).2.2 = true := by
-    intro ts
-    induction ts with
-    | nil => intro init hi _; exact hi
-    | cons t rest ih =>
-      intro init hi hno
-      simp only [lastGood, List.foldl_cons]
-      apply ih
-      · cases hp : parse t with
-        | none => exact hi
-        | some p =>
-          obtain ⟨c, r⟩ := p
-          cases r with
-          | none => exact absurd hp (hno t (by simp) c)
-          | some x => rfl
-      · intro t' ht' c; exact hno t' (by simp [ht']) c
-  have hl := this _ (st.active, st.rate, st.alive) ha hn
-  have h1' := congrArg (fun p => p.2.2) h1
-  simp only at h1'
-  rw [h1']; exact hl
+      lastGoodRun parse (st.active, st.rate, st.alive) (changes st.source (reads fixed st.modified h)) :=
+  runAll_lastGoodRun parse fixed h st
 
 /-! ### the model against the executable specification (the one the driver evaluates on the
 implementation's observation) -/
 
-/-- FULL STATEMENT: on every history of file states, from `init_file` on, what the reloader does
-satisfies `Spec.specHistory`. False for the code as it is (`codeFixed = false`): see
-`C15_mtime_consumed_refutes_statement`. -/
-def C15_reloader_meets_spec_statement : Prop :=
+/-- On every history of file states, for a consistent initial pair (text, mtime), what the reloader
+does satisfies `Spec.specHistory`; the parametrised form (any `fixed`) is used for the historical
+refutation `Hist_C15_mtime_consumed_refutes`. -/
+def C15_reloader_meets_spec_for (fixed : Bool) : Prop :=
   ∀ (Text : Type) [DecidableEq Text] (parse : Text → Option (ConfigTag × Option Rate))
     (m0 : Option Mtime) (text0 : Text) (st0 : RState Text) (h : List (FileView Text)),
     initState parse m0 text0 = some st0 →
-    specHistory parse m0 text0 (obsOf .unchanged st0) (modelPolls parse codeFixed st0 h) = none
+    specHistory parse m0 text0 (obsOf .unchanged st0) (modelPolls parse fixed st0 h) = none
 
-/-- PROVED PART for the code as it is: histories in which no poll finds the file unreadable while
-its metadata is readable (directory, EACCES, not UTF-8), or platforms without mtimes. (`Safe` is
-trivially true once `codeFixed` is flipped, which turns this into the full statement.) -/
-theorem C15_reloader_meets_spec_partial (m0 : Option Mtime) (text0 : Text) (st0 : RState Text)
-    (h : List (FileView Text)) (hinit : initState parse m0 text0 = some st0)
-    (hsafe : Safe codeFixed st0 h) :
-    specHistory parse m0 text0 (obsOf .unchanged st0) (modelPolls parse codeFixed st0 h) = none :=
-  specHistory_model parse codeFixed m0 text0 st0 hinit h hsafe .unchanged
+def C15_reloader_meets_spec_statement : Prop := C15_reloader_meets_spec_for codeFixed
 
-/-- with the proposed patch (remember the mtime only after the read succeeded) the statement
-holds for every history -/
-theorem C15_reloader_meets_spec_fixed (m0 : Option Mtime) (text0 : Text) (st0 : RState Text)
-    (h : List (FileView Text)) (hinit : initState parse m0 text0 = some st0) :
-    specHistory parse m0 text0 (obsOf .unchanged st0) (modelPolls parse true st0 h) = none :=
-  specHistory_model parse true m0 text0 st0 hinit h (Or.inl rfl) .unchanged
-
-/-- now that `/repo` carries the patch (`codeFixed = true`), the FULL statement holds -/
+/-- the code as it is now (`codeFixed = true`: the mtime is remembered only after the read
+succeeded) satisfies the full statement -/
 theorem C15_reloader_meets_spec : C15_reloader_meets_spec_statement := by
   intro Text _ parse m0 text0 st0 h hinit
   exact specHistory_model parse codeFixed m0 text0 st0 hinit h (Or.inl rfl) .unchanged
+
+/-- the initialisation looks at the file twice (`v1` then `v2`): whatever edit lands in between,
+the history that follows satisfies the specification — the code as it is now takes the mtime
+first (`initStatsBeforeRead = true`) -/
+def C15_init_then_polls_meets_spec_for (statsFirst : Bool) : Prop :=
+  ∀ (Text : Type) [DecidableEq Text] (parse : Text → Option (ConfigTag × Option Rate))
+    (noMtime : Bool) (v1 v2 : FileView Text) (st0 : RState Text) (h : List (FileView Text)),
+    initState2 parse statsFirst noMtime v1 v2 = some st0 →
+    specHistory2 parse noMtime v1 v2 (obsOf .unchanged st0) (modelPolls parse codeFixed st0 h) = none
+
+def C15_init_then_polls_meets_spec_statement : Prop := C15_init_then_polls_meets_spec_for initStatsBeforeRead
+
+theorem C15_init_then_polls_meets_spec : C15_init_then_polls_meets_spec_statement := by
+  intro Text _ parse noMtime v1 v2 st0 h hinit
+  exact specHistory2_model_statsFirst parse codeFixed noMtime v1 v2 st0 h hinit (Or.inl rfl) .unchanged
 
 /-! ### the real thread: `loop { sleep(rate); poll }` with time abstracted -/
 
@@ -461,125 +542,115 @@ theorem C15_repeated_polls_idempotent (fixed : Bool) (st : RState Text) (fv : Fi
     (poll parse fixed (poll parse fixed st fv).1 fv).2 ≠ .applied :=
   ⟨pollMany_eq parse fixed fv n st, (poll_idem parse fixed st fv).2⟩
 
-/-- with ordinary refresh rates only, what the thread shows after each edit (active configuration,
-touched, alive) is exactly what the poll history of `run` shows: the theorems about `pollAll` /
-`runAll` speak about the real loop as the harness observes it -/
-theorem C15_thread_shows_poll_history (hf : FastRates parse) (fixed : Bool) (views : List (FileView Text))
-    (st : RState Text) (cur : FileView Text) (h : st.rate < slowRate) :
-    threadRun parse fixed st cur (views.map .edit) = (pollAll parse fixed st views).map tobsOf :=
-  threadRun_fast parse hf fixed views st cur h
+/-- what the thread shows, for ANY refresh rates: the observations of the steps at which the loop
+polls are exactly the poll history of `run` over the views it polls (`polledViews`: every edit
+while the current rate is an ordinary one, the current file at a long wait), and at a step at which
+it does not poll (it is inside the `sleep` of a slow rate — "the new refresh rate is used from the
+next sleep") nothing is applied -/
+theorem C15_thread_shows_poll_history (fixed : Bool) (steps : List (TStep Text))
+    (st : RState Text) (cur : FileView Text) :
+    (threadRun parse fixed st cur steps).filter (·.polled) =
+      (pollAll parse fixed st (polledViews parse fixed st cur steps)).map tobsOf ∧
+    ∀ o ∈ threadRun parse fixed st cur steps, o.polled = false → o.touched = false :=
+  threadRun_polled parse fixed steps st cur
 
 end
 
-/-! ### the finding, on a concrete witness -/
+/-! ### HISTORICAL (not counted): the variant before fix 6066c40, `fixed = false` -/
 
-/-- the code as it is: the failed read consumed mtime 11, the changed, valid file is never applied -/
-theorem C15_mtime_consumed_witness :
+/-- before 6066c40 `run_once` remembered the new mtime before the read had succeeded: the failed
+read consumed mtime 11 and the changed, valid file was never applied -/
+theorem Hist_C15_mtime_consumed_witness :
     initState parseDoc (some 10) wA = some wInit ∧
     (pollAll parseDoc false wInit wHistory).map (fun p => (p.1, p.2.active)) = [(.error, 1), (.unchanged, 1)] ∧
     (pollAll parseDoc true wInit wHistory).map (fun p => (p.1, p.2.active)) = [(.error, 1), (.applied, 2)] ∧
     (specHistory parseDoc (some 10) wA (obsOf .unchanged wInit) (modelPolls parseDoc false wInit wHistory)).isSome = true := by
   decide
 
-theorem C15_mtime_consumed_refutes_statement (hcode : codeFixed = false) :
-    ¬ C15_reloader_meets_spec_statement := by
+theorem Hist_C15_mtime_consumed_refutes : ¬ C15_reloader_meets_spec_for false := by
   intro hst
   have h := hst Doc parseDoc (some 10) wA wInit wHistory (by decide)
-  rw [hcode] at h
-  have h2 := C15_mtime_consumed_witness.2.2.2
+  have h2 := Hist_C15_mtime_consumed_witness.2.2.2
   rw [h] at h2
   exact absurd h2 (by decide)
 
-/-! ### non-vacuity of (b): concrete histories through every branch -/
+/-- the unfixed variant did satisfy the specification on histories in which no poll found the
+file unreadable while its metadata was readable -/
+theorem Hist_C15_reloader_meets_spec_partial (m0 : Option Mtime) (text0 : Doc) (st0 : RState Doc)
+    (h : List (FileView Doc)) (hinit : initState parseDoc m0 text0 = some st0)
+    (hsafe : Safe false st0 h) :
+    specHistory parseDoc m0 text0 (obsOf .unchanged st0) (modelPolls parseDoc false st0 h) = none :=
+  specHistory_model parseDoc false m0 text0 st0 hinit h hsafe .unchanged
+
+/-! ### non-vacuity of (b): concrete histories through every branch, on the code as it is now -/
 
 /-- syntax error keeps A and keeps polling; re-polling the same bad text is "unchanged"; restoring
 A afterwards counts as a change and is applied again -/
-example : (pollAll parseDoc false wInit [.ok 11 wBad, .ok 12 wBad, .ok 13 wA]).map
+example : (pollAll parseDoc codeFixed wInit [.ok 11 wBad, .ok 12 wBad, .ok 13 wA]).map
     (fun p => (p.1, p.2.active, p.2.alive)) = [(.error, 1, true), (.unchanged, 1, true), (.applied, 1, true)] := by
   decide
 /-- a same-mtime edit is missed, and seen as soon as the mtime moves -/
-example : (pollAll parseDoc false wInit [.ok 10 wB, .ok 11 wB]).map
+example : (pollAll parseDoc codeFixed wInit [.ok 10 wB, .ok 11 wB]).map
     (fun p => (p.1, p.2.active, p.2.rate)) = [(.unchanged, 1, 30), (.applied, 2, 60)] := by decide
+/-- an unreadable file (directory, EACCES, not UTF-8) is an error at every poll, does not consume
+its mtime, and a valid file keeping that mtime is applied (the one place where `codeFixed` matters) -/
+example : (pollAll parseDoc codeFixed wInit [.unreadable 11, .unreadable 11, .ok 11 wB]).map
+    (fun p => (p.1, p.2.active, p.2.modified)) = [(.error, 1, some 10), (.error, 1, some 10), (.applied, 2, some 11)] := by
+  decide
 /-- a slow refresh rate defers the next poll: the edit is picked up only after the long wait -/
-example : (threadRun parseDoc true wInit (.ok 10 wA)
+example : (threadRun parseDoc codeFixed wInit (.ok 10 wA)
       [.edit (.ok 11 { kind := .good, tag := 5, rate := some 3000, nonce := 0 }), .edit (.ok 12 wB), .longWait]).map
     (fun o => (o.active, o.touched, o.polled)) = [(5, true, true), (5, false, false), (2, true, true)] := by decide
-/-- deletion keeps the configuration and the loop; removal of refresh_rate ends the loop -/
-example : (pollAll parseDoc false wInit [.missing, .ok 11 wNoRate, .ok 12 wB]).map
+/-- deletion keeps the configuration and the loop; removal of refresh_rate ends the loop, a later
+valid change is never applied (`C15_active_is_last_good_run` covers this history) -/
+example : (pollAll parseDoc codeFixed wInit [.missing, .ok 11 wNoRate, .ok 12 wB]).map
     (fun p => (p.1, p.2.active, p.2.alive)) = [(.error, 1, true), (.applied, 3, false), (.dead, 3, false)] := by
   decide
-/-- the hypotheses of `C15_active_is_last_good_run` are satisfiable on a history with a real change -/
-example : NoRateRemoval parseDoc (changes wInit.source (reads false wInit.modified [.ok 11 wBad, .ok 12 wB])) := by
-  have : changes wInit.source (reads false wInit.modified [.ok 11 wBad, .ok 12 wB]) = [wBad, wB] := by decide
-  rw [this]
-  intro t ht c
-  simp only [List.mem_cons, List.not_mem_nil, or_false] at ht
-  rcases ht with rfl | rfl <;> simp [parseDoc, wBad, wB]
-example : Safe false wInit [.missing, .ok 11 wBad, .ok 12 wB] := by
-  right; right
-  intro fv hfv m
-  simp only [List.mem_cons, List.not_mem_nil, or_false] at hfv
-  rcases hfv with rfl | rfl | rfl <;> simp
+example : lastGoodRun parseDoc (1, 30, true)
+    (changes wInit.source (reads codeFixed wInit.modified [.missing, .ok 11 wNoRate, .ok 12 wB])) = (3, 30, false) := by
+  decide
+/-- the two-look initialisation with an edit in between, on the code as it is now: B is loaded, the
+older mtime is remembered, the first poll re-examines the file and leaves it alone -/
+example : (initState2 parseDoc initStatsBeforeRead false (.ok 10 wA) (.ok 11 wB)).map
+    (fun st => (st.modified, st.active,
+      (pollAll parseDoc codeFixed st [.ok 11 wB, .ok 12 wA]).map (fun p => (p.1, p.2.active)))) =
+    some (some 10, 2, [(.unchanged, 2), (.applied, 1)]) := by decide
 
 end Log4rs.Reconfig.Reloader
 
 namespace Log4rs.Reconfig
 
-/-! ## (a) reconfiguring threadS: `set_config` is two writes -/
+/-! ## (a) reconfiguring threadS: `set_config` is two writes under one lock -/
 
-/-- FULL STATEMENT: whenever no `set_config` call is in flight, the facade's gate is that of the
-configuration whose snapshot is stored — for every interleaving of the two writes of any number of
-`set_config` calls. False for the code as it is (`setConfigSerialised = false`). -/
-def C15_set_config_consistent_statement : Prop :=
+/-- whenever no `set_config` call is in flight, the facade's gate is that of the configuration whose
+snapshot is stored — for every interleaving of any number of `set_config` calls -/
+def C15_set_config_consistent_for (serialised : Bool) : Prop :=
   ∀ (cfgs : List MiniCfg) (evs : List FEvent),
-    let s := FSys.run setConfigSerialised cfgs (FSys.init cfgs) evs
+    let s := FSys.run serialised cfgs (FSys.init cfgs) evs
     s.quiescent = true → s.maxLevel = cfgMax cfgs s.store
 
-/-- PROVED PART for the code as it is: interleavings in which at most one call at a time is between
-its two writes (one reconfiguring thread, or reconfigurers that happen not to overlap there) -/
-theorem C15_set_config_consistent_partial (cfgs : List MiniCfg) (evs : List FEvent)
-    (hone : ∀ s' ∈ FSys.states setConfigSerialised cfgs (FSys.init cfgs) evs, s'.atHook.length ≤ 1) :
-    let s := FSys.run setConfigSerialised cfgs (FSys.init cfgs) evs
-    s.quiescent = true → s.maxLevel = cfgMax cfgs s.store := by
-  intro s hq
-  have h := FSys.run_consistent_of_one setConfigSerialised cfgs evs _ (FSys.init_consistent cfgs) hone
-  simp only [FSys.quiescent, Bool.and_eq_true, List.isEmpty_iff] at hq
-  exact h.2.1 hq.1
+def C15_set_config_consistent_statement : Prop := C15_set_config_consistent_for setConfigSerialised
 
-/-- with the proposed patch (a lock held across both writes) the statement holds for every
-interleaving: a second call waits until the first has stored -/
-theorem C15_set_config_consistent_serialised (cfgs : List MiniCfg) (evs : List FEvent) :
-    let s := FSys.run true cfgs (FSys.init cfgs) evs
-    s.quiescent = true → s.maxLevel = cfgMax cfgs s.store := by
-  intro s hq
+/-- the code as it is now (both writes under one process-wide lock, `setConfigSerialised = true`):
+a second call waits until the first has stored, so the statement holds for every interleaving -/
+theorem C15_set_config_consistent : C15_set_config_consistent_statement := by
+  intro cfgs evs s hq
   have h := FSys.run_serialised_consistent cfgs evs _ (FSys.init_consistent cfgs)
   simp only [FSys.quiescent, Bool.and_eq_true, List.isEmpty_iff] at hq
   exact h.2.1 hq.1
 
-/-- the witness (case `C15 race 10;3;10|20;5;20|30;1;30 a1,a2,s2,s1 0.1,0.2,0.3,0.4,0.5`): both
-calls have returned, the snapshot is A's (root Trace), the gate is B's (Error): an error record is
-delivered by A's appender, everything else is dropped as B would — for good -/
-theorem C15_two_writers_witness :
-    let s := FSys.run false [fc0, fc1, fc2] (FSys.init [fc0, fc1, fc2]) fRace
-    s.quiescent = true ∧ s.done = [2, 1] ∧ s.store = 1 ∧ s.maxLevel = 1 ∧ cfgMax [fc0, fc1, fc2] 1 = 5 ∧
-    s.record [fc0, fc1, fc2] 0 1 = [(1, 20)] ∧ s.record [fc0, fc1, fc2] 0 4 = [] ∧
-    prescribed (mkSnapshot fc1) 0 4 = [(1, 20)] ∧ prescribed (mkSnapshot fc2) 0 1 = [(2, 30)] := by
-  decide
+/-- and while calls are in flight at most one of them is between its two writes, and the gate is
+that call's -/
+theorem C15_set_config_one_writer (cfgs : List MiniCfg) (evs : List FEvent) :
+    let s := FSys.run setConfigSerialised cfgs (FSys.init cfgs) evs
+    s.atHook.length ≤ 1 ∧ ∀ k, s.atHook = [k] → s.maxLevel = cfgMax cfgs k := by
+  intro s
+  have h := FSys.run_serialised_consistent cfgs evs _ (FSys.init_consistent cfgs)
+  exact ⟨h.1, h.2.2⟩
 
-theorem C15_two_writers_refute (hcode : setConfigSerialised = false) :
-    ¬ C15_set_config_consistent_statement := by
-  intro hst
-  have h := hst [fc0, fc1, fc2] fRace
-  rw [hcode] at h
-  have hw := C15_two_writers_witness
-  simp only at h hw
-  have := h hw.1
-  rw [hw.2.2.1, hw.2.2.2.1, hw.2.2.2.2.1] at this
-  exact absurd this (by decide)
-
-/-- one record, any state reachable with at most one call between its writes: the gate never
-produces a mixture — the record is treated entirely as the stored configuration prescribes or
-entirely as the configuration whose level the gate holds prescribes (dropped) -/
+/-- one record, in any such state: the gate never produces a mixture — the record is treated
+entirely as the stored configuration prescribes or entirely as the configuration whose level the
+gate holds prescribes (dropped: above that configuration's max level nothing is routed anyway) -/
 theorem C15_gate_one_config (cfgs : List MiniCfg) (s : FSys) (j : Nat) (cs cj : MiniCfg)
     (hs : cfgs[s.store]? = some cs) (hj : cfgs[j]? = some cj) (hmax : s.maxLevel = cfgMax cfgs j)
     (t : Target) (l : Level) :
@@ -594,64 +665,66 @@ theorem C15_gate_one_config (cfgs : List MiniCfg) (s : FSys) (j : Nat) (cs cj : 
     have : cj.maxLevel < l := Nat.lt_of_not_le hl'
     rw [prescribed_above_max cj t l this]
 
+/-- non-vacuity on the code as it is now: the schedule that used to break it — the second call
+waits, both stores happen in turn, gate and snapshot agree -/
+example : (FSys.states setConfigSerialised [fc0, fc1, fc2] (FSys.init [fc0, fc1, fc2]) fRace).map
+    (fun s => (s.maxLevel, s.store, s.atHook, s.waiting)) =
+    [(3, 0, [], []), (5, 0, [1], []), (5, 0, [1], [2]), (5, 0, [1], [2]), (1, 1, [2], [])] := by decide
+
+/-! ### HISTORICAL (not counted): `set_config` before fix 411af7e, two unsynchronised writes -/
+
+/-- (case `C15 race 10;3;10|20;5;20|30;1;30 a1,a2,s2,s1 0.1,0.2,0.3,0.4,0.5`) both calls have
+returned, the snapshot is A's (root Trace), the gate is B's (Error): an error record is delivered by
+A's appender, everything else is dropped as B would — for good -/
+theorem Hist_C15_two_writers_witness :
+    let s := FSys.run false [fc0, fc1, fc2] (FSys.init [fc0, fc1, fc2]) fRace
+    s.quiescent = true ∧ s.done = [2, 1] ∧ s.store = 1 ∧ s.maxLevel = 1 ∧ cfgMax [fc0, fc1, fc2] 1 = 5 ∧
+    s.record [fc0, fc1, fc2] 0 1 = [(1, 20)] ∧ s.record [fc0, fc1, fc2] 0 4 = [] ∧
+    prescribed (mkSnapshot fc1) 0 4 = [(1, 20)] ∧ prescribed (mkSnapshot fc2) 0 1 = [(2, 30)] := by
+  decide
+
+theorem Hist_C15_two_writers_refute : ¬ C15_set_config_consistent_for false := by
+  intro hst
+  have h := hst [fc0, fc1, fc2] fRace
+  have hw := Hist_C15_two_writers_witness
+  simp only at h hw
+  have := h hw.1
+  rw [hw.2.2.1, hw.2.2.2.1, hw.2.2.2.2.1] at this
+  exact absurd this (by decide)
+
+/-- the unserialised variant was consistent on interleavings in which at most one call at a time was
+between its two writes -/
+theorem Hist_C15_set_config_consistent_partial (cfgs : List MiniCfg) (evs : List FEvent)
+    (hone : ∀ s' ∈ FSys.states false cfgs (FSys.init cfgs) evs, s'.atHook.length ≤ 1) :
+    let s := FSys.run false cfgs (FSys.init cfgs) evs
+    s.quiescent = true → s.maxLevel = cfgMax cfgs s.store := by
+  intro s hq
+  have h := FSys.run_consistent_of_one false cfgs evs _ (FSys.init_consistent cfgs) hone
+  simp only [FSys.quiescent, Bool.and_eq_true, List.isEmpty_iff] at hq
+  exact h.2.1 hq.1
+
 end Log4rs.Reconfig
 
 namespace Log4rs.Reconfig.Reloader
 
-/-! ## (b) the initialisation looks at the file twice -/
+/-! ### HISTORICAL (not counted): `init_file` before fix b32fc8c, read first and stat afterwards -/
 
-/-- FULL STATEMENT: whatever edit lands between the two looks of `init_file`, the history that
-follows satisfies the specification. False for the code as it is (read, then stat). -/
-def C15_init_then_polls_meets_spec_statement : Prop :=
-  ∀ (noMtime : Bool) (v1 v2 : FileView Doc) (st0 : RState Doc) (h : List (FileView Doc)),
-    initState2 parseDoc initStatsBeforeRead noMtime v1 v2 = some st0 →
-    specHistory2 parseDoc noMtime v1 v2 (obsOf .unchanged st0) (modelPolls parseDoc codeFixed st0 h) = none
-
-/-- PROVED PART: no edit lands between the two looks -/
-theorem C15_init_then_polls_meets_spec_partial (noMtime : Bool) (v : FileView Doc) (st0 : RState Doc)
-    (h : List (FileView Doc)) (hinit : initState2 parseDoc initStatsBeforeRead noMtime v v = some st0) :
-    specHistory2 parseDoc noMtime v v (obsOf .unchanged st0) (modelPolls parseDoc codeFixed st0 h) = none := by
-  have hinit' : ∃ text, v.text? = some text ∧
-      initState parseDoc (if noMtime then none else v.mtime?) text = some st0 := by
-    unfold initState2 at hinit
-    cases hv : v.text? with
-    | none => cases initStatsBeforeRead <;> simp [hv] at hinit
-    | some text => exact ⟨text, rfl, by cases initStatsBeforeRead <;> simpa [hv] using hinit⟩
-  obtain ⟨text, hv, hi⟩ := hinit'
-  unfold initState at hi
-  cases hp : parseDoc text with
-  | none => simp [hp] at hi
-  | some p =>
-    obtain ⟨c, r⟩ := p
-    simp only [hp, Option.some.injEq] at hi
-    subst hi
-    have hgo := specPolls_model parseDoc codeFixed h
-      { modified := if noMtime then none else v.mtime?, source := text, active := c, rate := r.getD 0, alive := r.isSome }
-      { remM := if noMtime then none else v.mtime?, remText := text, prevText := some text,
-        prev := obsOf .unchanged { modified := if noMtime then none else v.mtime?, source := text, active := c, rate := r.getD 0, alive := r.isSome } }
-      1 (by simp [Linked, obsOf]) (Or.inl rfl)
-    unfold specHistory2
-    cases r <;> simp [hv, hp, obsOf, List.filter] at hgo ⊢ <;> simp [hgo]
-
-/-- the witness (case `C15 reload g:1:30:0;g:2:60:0 0:10:0:f:e1.11 w:1:11,w:1:11`): the text of
-version A (mtime 10) was read, then the file became B (mtime 11), then the mtime was taken: the
-reloader remembers (A's text, B's mtime) and never looks at B -/
-theorem C15_init_race_witness :
+/-- (case `C15 reload g:1:30:0;g:2:60:0 0:10:0:f:e1.11 w:1:11,w:1:11`) the text of version A
+(mtime 10) was read, then the file became B (mtime 11), then the mtime was taken: the reloader
+remembered (A's text, B's mtime) and never looked at B -/
+theorem Hist_C15_init_race_witness :
     initState2 parseDoc false false (.ok 10 wA) (.ok 11 wB) = some { wInit with modified := some 11 } ∧
     (pollAll parseDoc codeFixed { wInit with modified := some 11 } [.ok 11 wB, .ok 11 wB]).map
       (fun p => (p.1, p.2.active)) = [(.unchanged, 1), (.unchanged, 1)] ∧
     (specHistory2 parseDoc false (.ok 10 wA) (.ok 11 wB) (obsOf .unchanged { wInit with modified := some 11 })
-      (modelPolls parseDoc codeFixed { wInit with modified := some 11 } [.ok 11 wB, .ok 11 wB])).isSome = true ∧
-    -- stat first, then read: B is what gets loaded
-    (initState2 parseDoc true false (.ok 10 wA) (.ok 11 wB)).map (fun st => (st.modified, st.active)) = some (some 10, 2) := by
+      (modelPolls parseDoc codeFixed { wInit with modified := some 11 } [.ok 11 wB, .ok 11 wB])).isSome = true := by
   decide
 
-theorem C15_init_race_refute (hcode : initStatsBeforeRead = false) :
-    ¬ C15_init_then_polls_meets_spec_statement := by
+theorem Hist_C15_init_race_refute : ¬ C15_init_then_polls_meets_spec_for false := by
   intro hst
-  have h := hst false (.ok 10 wA) (.ok 11 wB) { wInit with modified := some 11 } [.ok 11 wB, .ok 11 wB]
-    (by rw [hcode]; exact C15_init_race_witness.1)
-  have h2 := C15_init_race_witness.2.2.1
+  have h := hst Doc parseDoc false (.ok 10 wA) (.ok 11 wB) { wInit with modified := some 11 } [.ok 11 wB, .ok 11 wB]
+    Hist_C15_init_race_witness.1
+  have h2 := Hist_C15_init_race_witness.2.2
   rw [h] at h2
   exact absurd h2 (by decide)
 
